@@ -258,7 +258,7 @@ impl World for TaskMutexWorld {
         for flavour in [FL_LOCAL, FL_SYNC, FL_CHECKED] {
             for mode in [0u8, 1] {
                 for k in [2u8, 4] {
-                    v.push(Cfg { flavour, mode, x: 0, y: 0, k });
+                    v.push(Cfg { flavour, mode, x: 0, y: 0, k, sw: 0 });
                 }
             }
         }
@@ -374,7 +374,7 @@ impl World for TaskSemaphoreWorld {
         for flavour in [FL_LOCAL, FL_SYNC, FL_CHECKED] {
             for mode in [0u8, 1] {
                 for (k, x) in [(3u8, 2u8), (4, 3)] {
-                    v.push(Cfg { flavour, mode, x, y: 0, k });
+                    v.push(Cfg { flavour, mode, x, y: 0, k, sw: 0 });
                 }
             }
         }
@@ -481,7 +481,7 @@ impl World for TaskEventWorld {
         &["C14"]
     }
     fn configs(&self, _tier: Tier) -> Vec<Cfg> {
-        [FL_LOCAL, FL_SYNC, FL_CHECKED].iter().map(|&flavour| Cfg { flavour, mode: 0, x: 0, y: 0, k: 4 }).collect()
+        [FL_LOCAL, FL_SYNC, FL_CHECKED].iter().map(|&flavour| Cfg { flavour, mode: 0, x: 0, y: 0, k: 4, sw: 0 }).collect()
     }
     fn enum_configs(&self, _tier: Tier) -> Vec<(Cfg, usize)> {
         vec![]
@@ -567,9 +567,9 @@ impl World for TaskMpmcWorld {
         let mut v = Vec::new();
         for flavour in [FL_LOCAL, FL_SYNC, FL_CHECKED] {
             for x in 0..=2u8 {
-                v.push(Cfg { flavour, mode: 0, x, y: 0, k: 4 });
+                v.push(Cfg { flavour, mode: 0, x, y: 0, k: 4, sw: 0 });
             }
-            v.push(Cfg { flavour, mode: 0, x: 1, y: 2, k: 5 });
+            v.push(Cfg { flavour, mode: 0, x: 1, y: 2, k: 5, sw: 0 });
         }
         v
     }
@@ -824,7 +824,7 @@ impl World for TaskOneshotWorld {
         let mut v = Vec::new();
         for flavour in [FL_LOCAL, FL_SYNC, FL_CHECKED] {
             for mode in [0u8, 1] {
-                v.push(Cfg { flavour, mode, x: 0, y: 0, k: 4 });
+                v.push(Cfg { flavour, mode, x: 0, y: 0, k: 4, sw: 0 });
             }
         }
         v
@@ -1000,7 +1000,7 @@ impl World for TaskStateWorld {
         &["C13"]
     }
     fn configs(&self, _tier: Tier) -> Vec<Cfg> {
-        [FL_LOCAL, FL_SYNC, FL_CHECKED].iter().map(|&flavour| Cfg { flavour, mode: 0, x: 0, y: 0, k: 4 }).collect()
+        [FL_LOCAL, FL_SYNC, FL_CHECKED].iter().map(|&flavour| Cfg { flavour, mode: 0, x: 0, y: 0, k: 4, sw: 0 }).collect()
     }
     fn enum_configs(&self, _tier: Tier) -> Vec<(Cfg, usize)> {
         vec![]
@@ -1163,7 +1163,7 @@ impl World for TaskTimerWorld {
         &["C15"]
     }
     fn configs(&self, _tier: Tier) -> Vec<Cfg> {
-        [FL_LOCAL, FL_SYNC, FL_CHECKED].iter().map(|&flavour| Cfg { flavour, mode: 0, x: 0, y: 0, k: 4 }).collect()
+        [FL_LOCAL, FL_SYNC, FL_CHECKED].iter().map(|&flavour| Cfg { flavour, mode: 0, x: 0, y: 0, k: 4, sw: 0 }).collect()
     }
     fn enum_configs(&self, _tier: Tier) -> Vec<(Cfg, usize)> {
         vec![]
